@@ -20,7 +20,7 @@ from harness.common import Ctx, driver, pmap, use_repo
 FAULTS = [
     "none", "forcing_starts_late", "forcing_ends_early", "forcing_starts_fraction_late", "forcing_ends_fraction_early", "frames_out_of_order", "frame_duplicated_across_files",
     "missing_start", "missing_stop", "missing_dt", "stop_wrong_side", "release_before_start", "release_after_stop",
-    "release_at_stop_only", "release_one_step_before_start", "release_half_step_before_start", "release_without_position", "no_grid_file", "no_forcing_file", "no_release_file",
+    "release_at_stop_only", "release_one_step_before_start", "release_half_step_before_start", "release_without_position", "release_with_x_only", "release_with_y_only", "release_with_lon_only", "no_grid_file", "no_forcing_file", "no_release_file",
     "empty_release_file_name", "no_config_file", "no_time_section", "no_tracker_section", "no_release_section",
     "no_output_section", "no_forcing_section", "no_forcing_section_explicit_grid", "illegal_subgrid_order",
     "illegal_subgrid_edge", "bad_version",
@@ -50,6 +50,9 @@ def apply_fault(sc, fault, d):
     sc = copy.deepcopy(sc)
     d = Path(d)
     sg = -1 if sc["rev"] else 1
+    if fault.startswith("release_with_"):
+        # nothing is sampled from the forcing before the first record, so nothing else stops a particle with half a position
+        sc["scalars"] = False
     setup = dict(config_exists=True, version_ok=True, has_time=True, has_tracker=True, has_release=True, has_output=True,
                  has_forcing=True, grid_has_module_and_file=False, dt=scen.DT, rev=sc["rev"], grid_file_exists=True,
                  imax0=sc["imax"], jmax0=sc["jmax"], continuous=sc["continuous"], freq=sc["freq"] * scen.DT)
@@ -150,6 +153,12 @@ def apply_fault(sc, fault, d):
         conf["time"]["stop"] = lab.tstr(start - sg * 3 * scen.DT); setup["stop"] = start - sg * 3 * scen.DT
     if fault == "release_without_position":
         rws = [dict(release_time=scen.sim2time(sc, r["step"]), mult=r["mult"], Z=r["Z"]) for r in sc["rows"]]
+        lab.write_release(d / "release.rls", rws)
+        setup["release"]["has_position"] = False
+    if fault in ("release_with_x_only", "release_with_y_only", "release_with_lon_only"):
+        # half a position is no position
+        col = dict(release_with_x_only="X", release_with_y_only="Y", release_with_lon_only="lon")[fault]
+        rws = [dict(release_time=scen.sim2time(sc, r["step"]), mult=r["mult"], Z=r["Z"], **{col: r["X"] if col != "Y" else r["Y"]}) for r in sc["rows"]]
         lab.write_release(d / "release.rls", rws)
         setup["release"]["has_position"] = False
     if fault == "no_grid_file":
